@@ -752,3 +752,178 @@ Proof.
   induction l as [|y l IH]; simpl; [split; [discriminate|tauto]|].
   rewrite orb_true_iff, IH. unfold seqb. rewrite String.eqb_eq. split; intros [H|H]; auto.
 Qed.
+
+(* ---------- non-vacuity ---------- *)
+
+Example ex_accepted :
+  obs_of (parse_xml_response ex_cfg ["id-0"; "id-1"] ex_now "https://sp/acs" (DRoot (ex_signed 0 (KICert 0))))
+  = OAccept "a1" "alice" ["alice@example.com"].
+Proof. vm_compute. reflexivity. Qed.
+
+(* the same content signed by the encryption-use key, by an unknown key, or unsigned: rejected *)
+Example ex_rejected :
+  map (fun d => obs_of (parse_xml_response ex_cfg ["id-1"] ex_now "https://sp/acs" (DRoot d)))
+      [ex_signed 2 (KICert 2); ex_signed 9 (KICert 9); ex_signed 9 (KICert 0); ex_signed 9 KINone; ex_unsigned]
+  = [OReject 1; OReject 1; OReject 1; OReject 1; OReject 1].
+Proof. vm_compute. reflexivity. Qed.
+
+(* not outstanding / too late / bad status *)
+Example ex_rejected_fields :
+  (obs_of (parse_xml_response ex_cfg ["id-2"] ex_now "https://sp/acs" (DRoot (ex_signed 0 (KICert 0)))),
+   obs_of (parse_xml_response ex_cfg ["id-1"] (ex_now + 60000000000) "https://sp/acs" (DRoot (ex_signed 0 (KICert 0)))))
+  = (OReject 1, OReject 1).
+Proof. vm_compute. reflexivity. Qed.
+
+(* ---------- Dolev-Yao corollary ---------- *)
+
+(* induction principle for the nested type *)
+Section NodeInd.
+  Variable P : node -> Prop.
+  Hypothesis HEl : forall ns tag attrs kids, Forall P kids -> P (El ns tag attrs kids).
+  Hypothesis HTxt : forall s, P (Txt s).
+  Hypothesis HCmt : P Cmt.
+  Hypothesis HSig : forall sh u sg ki ov, P ov -> P (SigN sh u sg ki ov).
+  Hypothesis HEnc : forall cid st p, P p -> P (EncN cid st p).
+  Fixpoint node_ind' (n : node) : P n :=
+    match n with
+    | El ns tag attrs kids =>
+        HEl ns tag attrs kids ((fix go (l : list node) : Forall P l :=
+                                  match l with [] => Forall_nil P | k :: r => Forall_cons k (node_ind' k) (go r) end) kids)
+    | Txt s => HTxt s
+    | Cmt => HCmt
+    | SigN sh u sg ki ov => HSig sh u sg ki ov (node_ind' ov)
+    | EncN cid st p => HEnc cid st p (node_ind' p)
+    end.
+End NodeInd.
+
+Lemma node_eqb_eq : forall a b, node_eqb a b = true -> a = b.
+Proof.
+  induction a using node_ind'; intros b Hb; destruct b; simpl in Hb; try discriminate.
+  - apply andb_prop in Hb. destruct Hb as [Hb Hk]. apply andb_prop in Hb. destruct Hb as [Hb Ha].
+    apply andb_prop in Hb. destruct Hb as [Hn Ht].
+    apply String.eqb_eq in Hn. apply String.eqb_eq in Ht. subst.
+    assert (attrs = attrs0) as ->.
+    { clear - Ha. revert attrs0 Ha. induction attrs as [|[p q] x IH]; intros [|[p' q'] y] Ha; try discriminate; auto.
+      apply andb_prop in Ha. destruct Ha as [Ha Hr]. apply andb_prop in Ha. destruct Ha as [Hp Hq].
+      apply String.eqb_eq in Hp. apply String.eqb_eq in Hq. subst. f_equal. apply IH. exact Hr. }
+    assert (kids = kids0) as ->; [|reflexivity].
+    clear - H Hk. revert kids0 Hk. induction H as [|u x Hu HF IH]; intros [|v y] Hk; try discriminate; auto.
+    apply andb_prop in Hk. destruct Hk as [Huv Hr]. f_equal; [apply Hu; exact Huv|apply IH; exact Hr].
+  - apply String.eqb_eq in Hb. subst. reflexivity.
+  - reflexivity.
+  - apply andb_prop in Hb. destruct Hb as [Hb Ho]. apply andb_prop in Hb. destruct Hb as [Hb Hk].
+    apply andb_prop in Hb. destruct Hb as [Hb Hs]. apply andb_prop in Hb. destruct Hb as [Hsh Hu].
+    apply Bool.eqb_prop in Hsh. apply String.eqb_eq in Hu. apply Z.eqb_eq in Hs. subst.
+    rewrite (IHa _ Ho). f_equal.
+    destruct ki, ki0; try discriminate; auto. apply Z.eqb_eq in Hk. subst. reflexivity.
+  - apply andb_prop in Hb. destruct Hb as [Hb Hp]. apply andb_prop in Hb. destruct Hb as [Hc Hs].
+    apply Z.eqb_eq in Hc. apply Z.eqb_eq in Hs. subst. rewrite (IHa _ Hp). reflexivity.
+Qed.
+
+Lemma sigs_in_kid r k : In k (node_kids r) -> incl (sigs_in k) (sigs_in r).
+Proof.
+  destruct r as [ns tag attrs kids| | | |]; simpl; try contradiction.
+  induction kids as [|x l IH]; simpl; [contradiction|].
+  intros [->|Hin]; [apply incl_appl, incl_refl|apply incl_appr, IH, Hin].
+Qed.
+
+Lemma sigs_in_cand r e : In e (cand_elems r) -> incl (sigs_in e) (sigs_in r).
+Proof.
+  unfold cand_elems. intros Hin. apply in_app_or in Hin. destruct Hin as [Hin|Hin].
+  - apply in_flat_map in Hin. destruct Hin as [k [Hk He]].
+    destruct k as [| | | |cid st p]; try contradiction. destruct (st =? 0); [|contradiction].
+    destruct He as [->|[]]. apply (sigs_in_kid r (EncN cid st e) Hk).
+  - apply filter_In in Hin. destruct Hin as [Hk _]. apply sigs_in_kid. exact Hk.
+Qed.
+
+(* the signature goxmldsig settles on is one that occurs in the element *)
+Lemma find_sig_in id : forall n uu ss kk oo rest, find_sig id n = FHit uu ss kk oo rest -> In (ss, oo) (sigs_in n).
+Proof.
+  induction n using node_ind'; intros uu ss kk oo rest Hf; simpl in Hf; try discriminate.
+  unfold fmap in Hf.
+  match type of Hf with match ?g kids with _ => _ end = _ => destruct (g kids) as [| |u' s' k' o' rest'] eqn:E; try discriminate end.
+  inversion Hf; subst. clear Hf. simpl.
+  revert rest' E. induction H as [|x l Hx HF IH]; intros rest' E; [discriminate|].
+  destruct x as [ns' tag' at' ks'|t| |sh ur sg ki ov|cid st p].
+  - destruct (find_sig id (El ns' tag' at' ks')) as [| |u2 s2 k2 o2 r2] eqn:E2.
+    + unfold fmap in E. match type of E with match ?g l with _ => _ end = _ => destruct (g l) eqn:E3; try discriminate end.
+      inversion E; subst. apply in_or_app. right. eapply IH. reflexivity.
+    + discriminate.
+    + inversion E; subst. apply in_or_app. left. eapply Hx. reflexivity.
+  - unfold fmap in E. match type of E with match ?g l with _ => _ end = _ => destruct (g l) eqn:E3; try discriminate end.
+    inversion E; subst. simpl. eapply IH. reflexivity.
+  - unfold fmap in E. match type of E with match ?g l with _ => _ end = _ => destruct (g l) eqn:E3; try discriminate end.
+    inversion E; subst. simpl. eapply IH. reflexivity.
+  - destruct (negb sh); [discriminate|]. destruct (uri_matches ur id).
+    + inversion E; subst. left. reflexivity.
+    + unfold fmap in E. match type of E with match ?g l with _ => _ end = _ => destruct (g l) eqn:E3; try discriminate end.
+      inversion E; subst. right. eapply IH. reflexivity.
+  - unfold fmap in E. match type of E with match ?g l with _ => _ end = _ => destruct (g l) eqn:E3; try discriminate end.
+    inversion E; subst. apply in_or_app. right. eapply IH. reflexivity.
+Qed.
+
+Lemma sigs_in_el ns tag attrs kids : sigs_in (El ns tag attrs kids) = flat_map sigs_in kids.
+Proof. simpl. induction kids as [|k l IH]; simpl; [reflexivity|]. rewrite IH. reflexivity. Qed.
+
+Lemma remove_first_incl p l : incl (flat_map sigs_in (remove_first p l)) (flat_map sigs_in l).
+Proof.
+  induction l as [|x l IH]; simpl; [apply incl_refl|].
+  destruct (p x); simpl; [apply incl_appr, incl_refl|].
+  apply incl_app; [apply incl_appl, incl_refl|apply incl_appr, IH].
+Qed.
+
+Lemma strip_first_incl l : incl (flat_map sigs_in (strip_first_keyinfo l)) (flat_map sigs_in l).
+Proof.
+  induction l as [|x l IH]; [apply incl_refl|].
+  cbn [strip_first_keyinfo]. destruct (sigtagged x) eqn:E.
+  - destruct x as [ns t a ks|s| |sh u sg ki ov|cid st p]; cbn [flat_map]; try apply incl_refl.
+    rewrite !sigs_in_el. apply incl_app; [apply incl_appl, remove_first_incl|apply incl_appr, incl_refl].
+  - cbn [flat_map]. apply incl_app; [apply incl_appl, incl_refl|apply incl_appr, IH].
+Qed.
+
+Lemma sigs_in_strip e : incl (sigs_in (strip_keyinfo e)) (sigs_in e).
+Proof.
+  destruct e as [ns t a kids|s| |sh u sg ki ov|cid st p]; cbn [strip_keyinfo]; try apply incl_refl.
+  destruct (existsb has_cert kids); [apply incl_refl|]. rewrite !sigs_in_el. apply strip_first_incl.
+Qed.
+
+(* the keys the SP trusts sign nothing but (canonical equivalents of) the elements in H *)
+Definition honest_signers (cfg : spcfg) (H : list node) (doc : node) : Prop :=
+  forall signer over, In (signer, over) (sigs_in doc) -> In signer (trusted_keys cfg) ->
+                      exists h, In h H /\ canon over = canon h.
+
+Lemma covered_honest cfg H doc e :
+  honest_signers cfg H doc -> incl (sigs_in e) (sigs_in doc) -> covered_self cfg e = true ->
+  exists h uri signer ki over rest,
+    In h H /\ find_sig (attr "ID" (node_attrs e)) (strip_keyinfo e) = FHit uri signer ki over rest /\
+    canon rest = canon h.
+Proof.
+  intros Hh Hincl Hc. unfold covered_self in Hc.
+  destruct (find_sig _ (strip_keyinfo e)) as [| |uri signer ki over rest] eqn:E; try discriminate.
+  apply andb_prop in Hc. destruct Hc as [Ht Hq]. apply existsb_eqb_in in Ht. apply node_eqb_eq in Hq.
+  destruct (Hh signer over) as [h [Hin Hcan]]; auto.
+  { apply Hincl. apply sigs_in_strip. eapply find_sig_in. exact E. }
+  exists h, uri, signer, ki, over, rest. repeat split; auto. congruence.
+Qed.
+
+(* C01 against an attacker who lacks the IdP keys: whatever tree is presented, if every
+   Signature in it that was made with a trusted key is one the IdP made over an element of H,
+   then the returned assertion is read from an element that is - up to comments and the
+   signature itself - an element of H, or a child of a Response that is *)
+Theorem accepted_content_was_signed cfg H ids now cur r a :
+  honest_signers cfg H r ->
+  parse_xml_response cfg ids now cur (DRoot r) = Ok a ->
+  exists e h uri signer ki over rest,
+    In e (cand_elems r) /\ un_assertion e = Ok a /\ In h H /\ canon rest = canon h /\
+    (find_sig (attr "ID" (node_attrs e)) (strip_keyinfo e) = FHit uri signer ki over rest \/
+     find_sig (attr "ID" (node_attrs r)) (strip_keyinfo r) = FHit uri signer ki over rest).
+Proof.
+  intros Hh Hp. apply parse_xml_response_sound in Hp.
+  destruct Hp as [r' [resp [e [Hd [_ [Hin [Hu Hrest]]]]]]]. inversion Hd; subst r'.
+  repeat match type of Hrest with _ /\ _ => destruct Hrest as [_ Hrest] end.
+  destruct Hrest as [Hc|Hc].
+  - destruct (covered_honest cfg H r r Hh (incl_refl _) Hc) as [h [uri [signer [ki [over [rest [Hi [Hf Hcan]]]]]]]].
+    exists e, h, uri, signer, ki, over, rest. repeat split; auto.
+  - destruct (covered_honest cfg H r e Hh (sigs_in_cand r e Hin) Hc) as [h [uri [signer [ki [over [rest [Hi [Hf Hcan]]]]]]]].
+    exists e, h, uri, signer, ki, over, rest. repeat split; auto.
+Qed.
